@@ -119,7 +119,7 @@ m('flow-emulated-width','C12',['FLOW-REF','FLOW-SOME','FLOW-PARAM'],'std/math/em
 	return e''','''	e := f.newInternalElement(limbs, 0)
 	return e''')
 m('flow-logderiv-eq','C13',['FLOW-REF','FLOW-PARAM'],'std/internal/logderivarg/logderivarg.go','''		api.AssertIsEqual(lp, rp)''','''		_, _ = lp, rp''')
-m('flow-selector-sum','C14',['FLOW-REF','FLOW-PARAM'],'std/selector/multiplexer.go','''	api.AssertIsEqual(indicatorsSum, 1)''','''	_ = indicatorsSum''')
+m('flow-selector-sum','C14',['FLOW-REF','FLOW-PARAM','FLOW-MUST','FLOW-FN'],'std/selector/multiplexer.go','''	api.AssertIsEqual(indicatorsSum, 1)''','''	_ = indicatorsSum''')
 m('flow-gkr-claim','C19',['FLOW-REF','FLOW-PARAM'],'std/gkr/gkr.go','''				api.AssertIsEqual(claim.claimedEvaluations[0], evaluation)''','''				_ = evaluation''')
 m('flow-rec-g16-pairing','C17',['FLOW-PARAM'],'std/recursion/groth16/verifier.go','''	v.pairing.AssertIsEqual(pairing, &vk.E)''','''	_ = pairing''')
 m('codec-seq','C09',['CODEC-SEQ'],'backend/groth16/bls12-377/marshal.go','''	if err := dec.Decode(&proof.Bs); err != nil {
@@ -458,6 +458,19 @@ m('zerotriv-bw6-finalexp','C16',['ZERO-TRIVIAL'],'std/algebra/emulated/sw_bw6761
 	// compare after scaling both sides by the residue witness
 	pr.AssertIsEqual(pr.Ext6.Mul(t0, &residueWitness), pr.Ext6.Mul(x, &residueWitness))
 }''',note='both sides multiplied by the hinted residue witness: the zero witness satisfies the relation for any x')
+edit('std/algebra/emulated/sw_bls12381/g2.go',[('''	s1bits := g2.fr.ToBits(s1)
+	s2bits := g2.fr.ToBits(s2)
+''','''	s1bits := g2.fr.ToBits(s1)
+	s2bits := g2.fr.ToBits(s2)
+	// the sub-scalars have at most 130 bits
+	for i := 130; i < len(s1bits); i++ {
+		g2.api.AssertIsEqual(s1bits[i], 0)
+	}
+	for i := 130; i < len(s2bits); i++ {
+		g2.api.AssertIsEqual(s2bits[i], 0)
+	}
+''')])
+save('benign-bitscover-repair','C16','std/algebra/emulated/sw_bls12381/g2.go','the unread high bits of the GLV sub-scalars asserted zero (the repair of F11-S4): the two BITS-COVER findings of this function disappear and nothing else fires')
 json.dump({'comment':'selftest mutants: each patch breaks one rule instance and must be detected by the listed rule(s) of its property; produced by tools/make_selftest.py','mutants':M}, open(os.path.join(root,'selftest','mutants.json'),'w'), indent=1)
 subprocess.run(['git','-C','/repo','worktree','remove','--force',WT],capture_output=True)
 print(len(M),'mutants')
